@@ -822,19 +822,22 @@ class Engine:
             if w1 == w0: return V(v.t, ty)
             if w1 < w0: return V(Extract(w1 - 1, 0, v.t), ty)
             return V(SignExt(w1 - w0, v.t) if s0 else ZeroExt(w1 - w0, v.t), ty)
-        if kind == 'IntToFloat' and ty == 'f64':
+        if kind in ('IntToFloat', 'FloatToInt', 'FloatToFloat'):
             import z3
-            w0, s0 = bvw(v.ty)
-            return V(z3.fpSignedToFP(z3.RNE(), v.t, z3.Float64()) if s0 else z3.fpUnsignedToFP(z3.RNE(), v.t, z3.Float64()), 'f64')
-        if kind == 'FloatToInt' and v.ty == 'f64' and ty in INT_TYPES:
-            import z3
-            w1, s1 = bvw(ty)
-            if s1: raise Unsupported('float to signed int')
-            # Rust `as`: saturating, NaN -> 0
-            mx = z3.fpUnsignedToFP(z3.RNE(), BitVecVal((1 << w1) - 1, w1), z3.Float64())
-            conv = z3.fpToUBV(z3.RTZ(), v.t, BitVecSort(w1))
-            return V(If(z3.fpIsNaN(v.t), BitVecVal(0, w1), If(z3.fpLEQ(v.t, z3.FPVal(0.0, z3.Float64())), BitVecVal(0, w1),
-                        If(z3.fpGEQ(v.t, mx), BitVecVal((1 << w1) - 1, w1), conv))), ty)
+            FS = {'f64': z3.Float64(), 'f32': z3.Float32()}
+            if kind == 'IntToFloat' and ty in FS:
+                w0, s0 = bvw(v.ty)
+                return V(z3.fpSignedToFP(z3.RNE(), v.t, FS[ty]) if s0 else z3.fpUnsignedToFP(z3.RNE(), v.t, FS[ty]), ty)
+            if kind == 'FloatToFloat' and v.ty in FS and ty in FS:
+                return V(v.t if v.ty == ty else z3.fpFPToFP(z3.RNE(), v.t, FS[ty]), ty)
+            if kind == 'FloatToInt' and v.ty in FS and ty in INT_TYPES:
+                w1, s1 = bvw(ty); fs = FS[v.ty]
+                if s1: raise Unsupported('float to signed int')
+                # Rust `as`: saturating, NaN -> 0
+                mx = z3.fpUnsignedToFP(z3.RNE(), BitVecVal((1 << w1) - 1, w1), fs)
+                conv = z3.fpToUBV(z3.RTZ(), v.t, BitVecSort(w1))
+                return V(If(z3.fpIsNaN(v.t), BitVecVal(0, w1), If(z3.fpLEQ(v.t, z3.FPVal(0.0, fs)), BitVecVal(0, w1),
+                            If(z3.fpGEQ(v.t, mx), BitVecVal((1 << w1) - 1, w1), conv))), ty)
         pt = ty.replace('*const ', '').replace('*mut ', '').strip()
         if kind == 'PointerWithExposedProvenance': return Ptr(v.t, pt)
         if kind == 'PointerExposeProvenance':
@@ -1297,9 +1300,9 @@ def intrinsic(eng, st, fr, callee, base, args, R):
         eng.fresh += 1
         p = BitVec(f'emptyvec!{eng.fresh}', 64); st.pc.append(p != 0)
         return R(Slice(p, BitVecVal(0, 64), 'u8'))
-    if base in ('std::f64::<impl f64>::sqrt', 'core::f64::<impl f64>::sqrt'):
+    if base in ('std::f64::<impl f64>::sqrt', 'core::f64::<impl f64>::sqrt', 'std::f32::<impl f32>::sqrt', 'core::f32::<impl f32>::sqrt'):
         import z3
-        return R(V(z3.fpSqrt(z3.RNE(), args[0].t), 'f64'))
+        return R(V(z3.fpSqrt(z3.RNE(), args[0].t), args[0].ty))
     if re.match(r'core::slice::<impl \[\w+\]>::(as_ptr|as_mut_ptr)$', base) or base in ('std::vec::Vec::as_ptr', 'std::vec::Vec::as_mut_ptr', 'alloc::vec::Vec::as_ptr', 'alloc::vec::Vec::as_mut_ptr'):
         s = deref(args[0]); return R(Ptr(s.base, s.ety))
     if re.match(r'core::slice::<impl \[\w+\]>::is_empty$', base) or base in ('std::vec::Vec::is_empty', 'alloc::vec::Vec::is_empty'):
